@@ -82,8 +82,7 @@ def rec_api(s):
     for p in parts:
         if not _digits(p):
             return False
-    if any(len(p) > 1 and p[0] == "0" for p in parts):
-        return None                     # leading zeros in API versions: unspecified
+    # "N or N.M of plain digits": unlike buildpack versions, API versions may be written with leading zeros ("01", "0.010")
     if any(int(p) > U64MAX for p in parts):
         return None
     return True
@@ -228,6 +227,8 @@ def judge(ty, s, rep, sh):
         else:
             if rec is True:
                 want = s if (ty == "version" or "." in s) else s + ".0"
+                if ty == "api":
+                    want = ".".join(str(int(x)) for x in want.split("."))      # the value is the numbers, shown without leading zeros
                 if shown != want:
                     sh.violation("%s:display" % ty, "%s parsed from %r displays as %r" % (ty, s, shown), case)
                     return
@@ -280,6 +281,29 @@ def shard_run(arg):
     finally:
         mon.close()
     return sh.dict()
+
+
+def threaded_checks(res, seed):
+    """the run-time parsers used from several threads of one process at once: every thread gets the verdict a single thread gets
+    (fresh process per type: the very first parses of a type happen concurrently)"""
+    sh = vp.Shard()
+    r = vp.rng(seed, "c09-mt")
+    for ty in NEWTYPES + ["version", "api"]:
+        pool = list(strings_upto(ALPHA if ty in NEWTYPES else VALPHA, 2)) + (RESERVED if ty in NEWTYPES else ["1.2.3", "0.10", "10.20.30", "1"])
+        items = [r.choice(pool) for _ in range(300)] + ["valid-%d" % i if ty in NEWTYPES else "%d.%d.%d" % (i, i, i) for i in range(100)]
+        mon = vp.Mon("parse")
+        try:
+            rep = mon.call({"op": "batch_mt", "type": ty, "items": [hx(x.encode()) for x in items], "threads": 8, "rounds": 3})
+        finally:
+            mon.close()
+        sh.evaluations += rep["parses"]
+        for d in rep["diffs"][:3]:
+            s_ = bytes.fromhex(d["input"]).decode()
+            sh.violation("%s:thread-dependent" % ty, "%s %r is %s by a single thread but %s when 8 threads parse at once (thread %d)"
+                         % (ty, s_, "accepted" if d["single_threaded"] else "rejected", "rejected" if d["single_threaded"] else "accepted", d["thread"]), {"type": ty, "input": s_, "threads": 8})
+        if not rep["diffs"]:
+            sh.nontrivial.add(("threads", ty, sum(rep["single"]) > 0, sum(rep["single"]) < len(items)))
+    res.merge(sh.dict())
 
 
 def display_checks(res):
@@ -444,6 +468,7 @@ def run(tier, seed, work):
     for d in vp.pmap(shard_run, shards):
         res.merge(d)
     display_checks(res)
+    threaded_checks(res, seed)
     th.join()
     # literal route vs. run-time route
     if "error" in mout:
